@@ -54,7 +54,7 @@ def run(ctx):
         'underlying connection object (attribute names that some method other than __init__ stores to, found '
         'in the bytecode of the working tree) and of lock acquisition; all other instructions are thread local, '
         'so this covers all bytecode-level interleavings up to commutation',
-        'CPython 3.12 sys.monitoring INSTRUCTION events; the connection lock is replaced by a cooperative shim',
+        'CPython 3.12 sys.monitoring INSTRUCTION events; threading.Lock inside ak.conn_http is replaced by a cooperative lock (also for locks created lazily)',
     ]
     # 1. the design: all interleavings
     ctx.tlc('http/ReqId.tla', _mc_cfg(2, 2), workers=8, timeout=1800)
@@ -68,16 +68,17 @@ def run(ctx):
     if '_cur_req_id' not in sch.names and not sch.names:
         ctx.note_drift('no shared mutable attribute found in _HttpConnImpl')
     sched.install(sch)
+    real_threading = conn_http.threading
+    conn_http.threading = sched.ThreadingShim(sch)       # locks created by the module (also lazily) are cooperative
     groups = {}
     total = 0
-    limit = 4000 if ctx.quick else 100000
+    limit = 12000 if ctx.quick else 200000
     try:
         for nt, reqs, own in CONFIGS:
             def make_bodies(nt=nt, reqs=reqs, own=own):
                 base = conn_http.HttpConn('http://h:1')
                 impl = base.conn_impl
                 holder['impl'] = impl
-                impl._reqid_generator_guard = sched._Shim(sch)
                 part = impl._reqid_connection_part
 
                 class Op:
@@ -113,7 +114,7 @@ def run(ctx):
                     return {'threads': nt, 'reqs': reqs, 'own': [list(x) for x in own],
                             'ev': [{'t': e['t'], 'k': e['k'], 'v': (e['v'] if e['v'] is not None else -9)}
                                    for e in trace], 'schedule': chosen}
-                return bodies, finish, impl._reqid_generator_guard
+                return bodies, finish, None
             # caller supplied ids are recognised in the opener through the X-Mine echo header
             execs = []
             for res in sched.explore_sleep(sch, make_bodies, limit=limit):
@@ -125,6 +126,7 @@ def run(ctx):
                 ctx.extra['schedule_limit_hit'] = True
     finally:
         sched.uninstall(sch)
+        conn_http.threading = real_threading
     # 3. trace validation
     nviol = 0
     for (nt, reqs), execs in groups.items():
@@ -174,12 +176,13 @@ def replay(ctx, case):
     holder = {}
     sch = sched.Scheduler(conn_http._HttpConnImpl, lambda: holder.get('impl'))
     sched.install(sch)
+    real_threading = conn_http.threading
+    conn_http.threading = sched.ThreadingShim(sch)
     try:
         nt, reqs, own = case['threads'], case['reqs'], [tuple(x) for x in case['own']]
         base = conn_http.HttpConn('http://h:1')
         impl = base.conn_impl
         holder['impl'] = impl
-        impl._reqid_generator_guard = sched._Shim(sch)
         seen = []
 
         class Op:
@@ -202,6 +205,7 @@ def replay(ctx, case):
         sch.run(bodies, case['schedule'])
     finally:
         sched.uninstall(sch)
+        conn_http.threading = real_threading
     gen = [s for s in seen if s and not str(s).startswith('mine-')]
     nums = sorted(int(str(s)[-12:]) for s in gen)
     mine = [s for s in seen if s and str(s).startswith('mine-')]
